@@ -52,6 +52,19 @@ Theorem C08_names_total_bytes : forall s,
 Proof. exact names_total_bytes_lemma. Qed.
 Print Assumptions C08_names_total_bytes.
 
+(* each component parser is exact on its own *)
+Theorem C08_component_parsers_exact : forall s,
+  (forall b c, parse_adc16 s = Ok (b, c) <-> In (s, KAdc16 b c) documented_names)
+  /\ (forall b c, parse_adc32 s = Ok (b, c) <-> In (s, KAdc32 b c) documented_names)
+  /\ (forall b, parse_pwb s = Ok b <-> In (s, KPwb b) documented_names)
+  /\ (forall k, parse_alpha16 s = Ok k <->
+                In (s, k) documented_names /\ match k with KAdc16 _ _ | KAdc32 _ _ => True | _ => False end)
+  /\ (forall u, parse_trg s = Ok u <-> s = s_ATAT)
+  /\ (forall u, parse_trb3 s = Ok u <-> s = s_TRBA)
+  /\ (forall u, parse_mcvx s = Ok u <-> s = s_MCVX).
+Proof. exact component_parsers_exact_lemma. Qed.
+Print Assumptions C08_component_parsers_exact.
+
 (* ------------------------------------------------------------------------------------------------ maps *)
 (* for EVERY run number: if a wire map is selected, (installed Alpha16 board, channel) -> wire is total,
    injective and onto the TPC_ANODE_WIRES wires *)
@@ -106,6 +119,32 @@ Theorem C08_no_catch_all_guess : forall arms, In arms [preamp_arms; channel_arms
   forall b, In (PAny, b) arms -> b = None.
 Proof. exact no_catch_all_guess_lemma. Qed.
 Print Assumptions C08_no_catch_all_guess.
+
+(* after the first map there is no gap: every later run number has a map *)
+Theorem C08_maps_no_gap : forall run,
+  (wire_first_threshold <= run -> wire_dispatch run <> None)
+  /\ (pad_first_threshold <= run -> pwb_dispatch run <> None).
+Proof. exact maps_no_gap_lemma. Qed.
+Print Assumptions C08_maps_no_gap.
+
+(* every translated table is selected by some run number (no table whose arm was forgotten or is shadowed) *)
+Theorem C08_every_table_used :
+  (forall t, t < lenN preamp_tables -> exists run, dispatch preamp_arms run = Some t)
+  /\ (forall t, t < lenN channel_tables -> exists run, dispatch channel_arms run = Some t)
+  /\ (forall t, t < lenN pwb_tables -> exists run, pwb_dispatch run = Some t).
+Proof. exact every_table_used_lemma. Qed.
+Print Assumptions C08_every_table_used.
+
+(* the `match run_number` arms select exactly what the table names document: table X_<k> from run k (included) up to
+   the next table's first run, nothing before the first, the simulation run as run 5000 (wire_dispatch_req /
+   pwb_dispatch_req are built from the table names alone); and a selected map is flagged bijective.  These
+   "required" observations are what the model runner prints in the differential run. *)
+Theorem C08_required_is_actual : forall run,
+  wire_dispatch_req run = wire_dispatch run /\ pwb_dispatch_req run = pwb_dispatch run
+  /\ wire_table_obs_req (wire_dispatch run) = wire_table_obs (wire_dispatch run)
+  /\ pad_table_obs_req (pwb_dispatch run) = pad_table_obs (pwb_dispatch run).
+Proof. exact required_is_actual_lemma. Qed.
+Print Assumptions C08_required_is_actual.
 
 (* ------------------------------------------------------------------------------------------- geometry *)
 (* phi(wire w) = wire_phi_num w * pi / TPC_ANODE_WIRES;  column c covers
